@@ -24,7 +24,9 @@ TEXT = {
             'finite-domain enumeration by abstract interpretation of the printer + parser oracle + exhaustiveness over the ASDL'),
     'C03': (E2E + ' with the renaming options: every binding form of the grammar (exhaustive over the ASDL identifier fields), scope-heavy probes, names bound nowhere that '
             'look like generated names, idioms with one name in several scopes - same structure, consistent new names, no two bindings of one name meet, no free '
-            'reference captured, no reference left unbound (symtable as oracle). White-box (optional): namespace of every syntactic slot and binding scope of every name '
+            'reference captured, no reference left unbound (symtable as oracle); name-reuse probes (declarations naming several names, globals the module never binds, class bodies '
+            'that read before binding, non-simple annotated targets, parameters spelled like generated names, nested assignment expressions) judged by a resolution oracle: every '
+            'identifier occurrence resolves, through the symbol tables, to the counterpart of the binding it resolved to and bindings neither split nor merge. White-box (optional): namespace of every syntactic slot and binding scope of every name '
             'vs symtable, reservation worlds, the generated name stream; the reservation algorithm on arbitrary programs is NOT decided',
             'abstract interpretation of the whole pipeline on probe programs + alpha-equivalence / capture oracle on symtable; abstract interpretation of mapper, binder, resolver, assigner on synthetic worlds'),
     'C04': (E2E + ' with both renaming options: class attributes, system names, names bound nowhere, roots of dotted imports, lambda parameters, super keep their spelling; '
